@@ -163,6 +163,14 @@ func (c *Characteristic) onValueUpdateFromConn(funcs []ConnChangeFunc, conn net.
 	}
 }
 
+// limitValue stores the current value again after the declared range has changed,
+// so that the value stays within the range.
+func (c *Characteristic) limitValue() {
+	if c.Value != nil {
+		c.updateValue(c.Value, nil, false)
+	}
+}
+
 func (c *Characteristic) clampFloat(value float64) interface{} {
 	// NaN (e.g. converted from the string "NaN") compares false with every bound
 	// and cannot be encoded as JSON
